@@ -93,8 +93,9 @@ def parseLOp (s : String) : Option (Option Op) :=   -- some none = W
   if s == "T" then some (some .term)
   else if s == "W" then some none
   else match s.splitOn ":" with
-    | ["I", a] => (parseArg a).map fun x => some (.init x)
-    | ["H", n, a] =>
+    -- optional trailing `:<locale>:<nlsHome>` fields do not touch the modelled statics
+    | "I" :: a :: _ => (parseArg a).map fun x => some (.init x)
+    | "H" :: n :: a :: _ =>
       match parseNats n, parseArg a with
       | some [i, m, ms], some x => some (some (.initHeap ⟨i, m, ms⟩ x))
       | _, _ => none
